@@ -236,6 +236,7 @@ def work(unit, tier):
     if unit[0] == "paths":
         check_paths(ns, part)
         check_focus_variants(ns, part)
+        check_simultaneous(ns, part)
         attribute_known(part)
         return part
     _, kinds, seqlen = unit
@@ -305,6 +306,70 @@ def check_focus_variants(ns, part):
             part["nontrivial"] += 1
 
 
+def check_simultaneous(ns, part):
+    """The method and the same-named module-level function probed at the same time (two probes, and two
+    selectors of one probe): each stream gets its own calls only."""
+    from ptera import probing
+
+    a, b = ns["Plain"](), ns["Plain"]()
+    env = dict(ns, a=a, b=b)
+    combos = [
+        (["Plain.meth > v", "meth > v"], [[{"v": 2}, {"v": 3}], [{"v": 500}]]),
+        (["meth > v", "Plain.meth > v"], [[{"v": 500}], [{"v": 2}, {"v": 3}]]),
+        (["a.meth > v", "meth > v"], [[{"v": 2, "self": a}], [{"v": 500}]]),
+        (["Eq.meth > v", "Plain.meth > v", "meth > v"], [[], [{"v": 2}, {"v": 3}], [{"v": 500}]]),
+    ]
+    for texts, exps in combos:
+        part["cases"] += 1
+        part["evaluations"] += 1
+        part["steps"] += 3
+        streams = [[] for _ in texts]
+        probes = []
+        try:
+            for i, t in enumerate(texts):
+                p = probing(t, env=env)
+                p.subscribe(streams[i].append)
+                p.__enter__()
+                probes.append(p)
+            a.meth(1)
+            ns["meth"](5)
+            b.meth(2)
+        except BaseException as e:
+            part["violations"].append(violation(PROP, "simultaneous-error", {"simultaneous": texts}, f"{texts}: {type(e).__name__}: {e}", tags=["simultaneous"]))
+            world.reset_context()
+            continue
+        finally:
+            for p in reversed(probes):
+                try:
+                    p.__exit__(None, None, None)
+                except BaseException:
+                    pass
+        ok = all(len(g) == len(e) and all(set(x) == set(y) and all((x[k] is y[k]) if k == "self" else x[k] == y[k] for k in y) for x, y in zip(g, e))
+                 for g, e in zip(streams, exps))
+        part["outcomes"]["simultaneous:" + ("ok" if ok else "bad")] += 1
+        if ok:
+            part["nontrivial"] += 1
+        else:
+            part["violations"].append(violation(
+                PROP, "wrong-simultaneous-events", {"simultaneous": texts},
+                f"probes {texts} active together, calls a.meth(1), meth(5), b.meth(2): expected {exps!r}, delivered {streams!r}", tags=["simultaneous"]))
+    # one probe with two selectors
+    part["cases"] += 1
+    got = []
+    try:
+        with probing("Plain.meth > v", "meth > v", env=env) as p:
+            p.subscribe(got.append)
+            a.meth(1)
+            ns["meth"](5)
+    except BaseException as e:
+        part["violations"].append(violation(PROP, "simultaneous-error", {"simultaneous": ["two selectors"]}, f"{type(e).__name__}: {e}", tags=["simultaneous"]))
+        world.reset_context()
+        return
+    if got != [{"v": 2}, {"v": 500}]:
+        part["violations"].append(violation(PROP, "wrong-simultaneous-events", {"simultaneous": ["two selectors"]},
+                                            f"probing('Plain.meth > v', 'meth > v'): expected [{{'v': 2}}, {{'v': 500}}], delivered {got!r}", tags=["simultaneous"]))
+
+
 def check_paths(ns, part):
     """Decorated method, property and dotted paths, on two instances (one probed, one not)."""
     from ptera import probing
@@ -370,6 +435,10 @@ def attribute_known(part):
 def replay(case):
     part = new_partial()
     ns = world.make_module(SRC, pin=True)
+    if "simultaneous" in case:
+        check_simultaneous(ns, part)
+        bad = [v for v in part["violations"] if v["case"]["simultaneous"] == case["simultaneous"]]
+        return (True, bad[0]["detail"]) if bad else (False, "each probe receives its own calls")
     if "variant" in case:
         check_focus_variants(ns, part)
         bad = [v for v in part["violations"] if v["case"]["variant"] == case["variant"]]
